@@ -42,9 +42,16 @@ MPISeqFrom(s, p, n, acc) ==       \* read n MPIs (n = 0: as many as there are); 
   ELSE LET d == MPIDecAt(s, p) IN
     IF ~d.ok THEN [ok |-> FALSE, mags |-> acc, next |-> p]
     ELSE MPISeqFrom(s, d.next, n, Append(acc, d.mag))
-\* signature value normalised to magnitudes (leading zero bits / padding do not matter)
-SigValue(f) == LET r == MPISeqFrom(f.sigvals, 1, NSigMPI(f.pk), <<>>) IN
-               IF r.ok /\ r.next = Len(f.sigvals) + 1 THEN r.mags ELSE <<"malformed", f.sigvals>>
+\* lenient reading (what a tolerant reader extracts): a declared length running past the end is clamped
+RECURSIVE MPISeqLenient(_, _, _, _)
+MPISeqLenient(s, p, n, acc) ==
+  IF p + 1 > Len(s) \/ (n > 0 /\ Len(acc) = n) THEN acc
+  ELSE LET bits == s[p] * 256 + s[p + 1]
+           nb == (bits + 7) \div 8
+           to == MinOf(p + 1 + nb, Len(s)) IN
+    MPISeqLenient(s, to + 1, n, Append(acc, StripZ(SubSeq(s, p + 2, to))))
+\* signature value normalised to magnitudes (leading zero bits / padding / declared bit counts do not matter)
+SigValue(f) == MPISeqLenient(f.sigvals, 1, NSigMPI(f.pk), <<>>)
 
 HasSub(sps, t) == \E k \in 1..Len(sps) : sps[k].type = t
 SubsOfType(sps, t) == SelectSeq(sps, LAMBDA x : x.type = t)
